@@ -25,6 +25,12 @@
                              (witness C03_load_shared_refuted, the class is decided by an instrumented re-run);
        Known_load_rejected : the load returns InvalidFileMerge (rollback path; not covered);
      C03_core_inv2_partial: the earlier statement without OpLoad.  C03_load_master_core: non-vacuity.
+     C03_inv2_partial / C03_inv2_real_partial / C03_histories2_real_partial: RealInv = TreeInv /\ CharsLeaf /\ OriginsRef
+       over op2 WITHOUT OpLoad (pending_op2; CharsLeaf / OriginsRef of a loaded tree need facts about the parser's
+       typing that are not part of this property), outside Known_real2 = failed re-parenting (Op1 move / copy) or a
+       duplicate that fails half-way (Known_dup_failed: the dropped copy's nodes keep the parent link of a model that
+       no longer exists).  C03_detfiles_inv2_partial: DF over op2 without OpDuplicate / OpLoad (a load leaves dead
+       nodes with the membership marker [65535], which are detached: DetFiles is not an invariant of loads as stated).
    Navigation: C03_position*, C03_walk_preorder, C03_dfs_ids_preorder, C03_iter_dfs*, C03_no_fuel_*.
    Stale handles: C03_live_or_detached, C03_detached_not_live, C03_stale*, (DetFiles = detached chains carry no local
    file sets; needed only by the four requests that ask for min_version and not for the model).
@@ -35,7 +41,8 @@ From AV Require Import Base.Bytes Base.Outcome Hash.HashModel Tree.Heap Tree.Ops
   Tree.InvProofsTree Tree.InvProofsNav Tree.InvProofs Tree.StaleProofs Tree.IterProofs Tree.IterProofsFile
   Tree.InvProofsDetFiles Tree.InvProofsDetFilesMain Tree.InvProofsOp2 Tree.InvExamples
   Tree.InvProofsChars Tree.InvProofsChars5 Tree.InvProofsOrigins3 Tree.InvProofsReal Tree.InvProofsRealTables Spec.SpecReal.
-From AV Require Import Tree.Script2 Tree.InvLoad Tree.InvProofsOp2Full Tree.InvProofsLoadExamples.
+From AV Require Import Tree.Script2 Tree.InvLoad Tree.InvProofsOp2Full Tree.InvProofsLoadExamples Tree.InvProofsOp2Lift
+  Tree.InvProofsOp2Real.
 From AV Require Tree.Load Tree.MergeSpec.
 Open Scope string_scope.
 Open Scope list_scope.
@@ -136,6 +143,53 @@ Theorem C03_load_master_core :
   MergeSpec.TinyM.load_tree "f0" MergeSpec.TinyM.file0 MergeSpec.TinyM.new_world = Val (OK 0, w_f0) /\
   MergeSpec.TinyM.load_tree "f1" MergeSpec.TinyM.file1 w_f0 = Val (OK 1, w_f01) /\ Core w_f01.
 Proof. exact load_master_core. Qed.
+
+(* ---------- RealInv and DF over op2 (PARTIAL: without OpLoad; DF also without OpDuplicate) ---------- *)
+Theorem C03_inv2_partial :
+  forall (T : tables) (tab_el tab_at tab_en : nametab) (check_fn : N -> list N -> res bool)
+         (float_parse : list N -> option N) (float_fmt : N -> list N)
+         (LATEST name_index name_definition_ref attr_schema_location : N) (root_attrs : list (N * cdata))
+         (o : op2) (w : world) (r : out value2) (w' : world),
+    RefChars T -> RealInv T w -> pending_op2 o = false ->
+    Known_real2 T tab_el tab_at tab_en check_fn float_parse float_fmt LATEST name_index name_definition_ref
+                attr_schema_location root_attrs w o = false ->
+    run_op2 T tab_el tab_at tab_en check_fn float_parse float_fmt LATEST name_index name_definition_ref
+            attr_schema_location root_attrs o w = Val (r, w') -> RealInv T w'.
+Proof. exact RealInv_step2_partial. Qed.
+
+Theorem C03_inv2_real_partial :
+  forall (tab_el tab_at tab_en : nametab) (check_fn : N -> list N -> res bool)
+         (float_parse : list N -> option N) (float_fmt : N -> list N)
+         (LATEST name_index name_definition_ref attr_schema_location : N) (root_attrs : list (N * cdata))
+         (o : op2) (w : world) (r : out value2) (w' : world),
+    RealInv RT w -> pending_op2 o = false ->
+    Known_real2 RT tab_el tab_at tab_en check_fn float_parse float_fmt LATEST name_index name_definition_ref
+                attr_schema_location root_attrs w o = false ->
+    run_op2 RT tab_el tab_at tab_en check_fn float_parse float_fmt LATEST name_index name_definition_ref
+            attr_schema_location root_attrs o w = Val (r, w') -> RealInv RT w'.
+Proof. exact RealInv_step2_real_partial. Qed.
+
+(* every history over op2 without OpLoad from the empty world, on the regenerated tables *)
+Theorem C03_histories2_real_partial :
+  forall (tab_el tab_at tab_en : nametab) (check_fn : N -> list N -> res bool)
+         (float_parse : list N -> option N) (float_fmt : N -> list N)
+         (LATEST name_index name_definition_ref attr_schema_location : N) (root_attrs : list (N * cdata))
+         (l : list op2) (w' : world),
+    clean_real_ops2 RT tab_el tab_at tab_en check_fn float_parse float_fmt LATEST name_index name_definition_ref
+                    attr_schema_location root_attrs l empty_world = true ->
+    run_ops2 RT tab_el tab_at tab_en check_fn float_parse float_fmt LATEST name_index name_definition_ref
+             attr_schema_location root_attrs l empty_world = Val w' -> RealInv RT w'.
+Proof. exact RealInv_histories2_real_partial. Qed.
+
+Theorem C03_detfiles_inv2_partial :
+  forall (T : tables) (tab_el tab_at tab_en : nametab) (check_fn : N -> list N -> res bool)
+         (float_parse : list N -> option N) (float_fmt : N -> list N)
+         (LATEST name_index name_definition_ref attr_schema_location : N) (root_attrs : list (N * cdata))
+         (o : op2) (w : world) (r : out value2) (w' : world),
+    TreeInv w -> DF w -> pending_real2 o = false ->
+    run_op2 T tab_el tab_at tab_en check_fn float_parse float_fmt LATEST name_index name_definition_ref
+            attr_schema_location root_attrs o w = Val (r, w') -> DF w'.
+Proof. exact DF_step2_partial. Qed.
 
 (* ---------- the artefact classes are empty on the real tables ---------- *)
 (* CharsLeaf: an element whose content mode is Characters has no sub-elements; kept by every operation, every table set *)
